@@ -122,6 +122,33 @@ def judge_zero(c, r):
     return "C09:nofilter.%s.%s/%s" % ([b for b in bad if b != "empty"][0], ff, c["form"]), det
 
 
+DIRTYING = {"png.cut-row", "png.bad-type", "zlib.cut", "a85.cut"}      # failures that can happen after a complete row
+
+
+def judge_history(chk, c, r, st):
+    """History independence: the same case decoded again on a thread that has just decoded some other stream (most of
+    them failing part-way) must give what the specification says - decoding is a function of (content, dictionary).
+    The harness reports the re-decodes that differ from the fresh-thread result; the declarative value decides."""
+    h = r.get("hist")
+    if not h:
+        return
+    n = sum(h["by_kind"].values())
+    st["rejudged_after_disturbance"] += n
+    chk.evaluations += n
+    for k, v in h["by_kind"].items():
+        st["by_kind"][k] = st["by_kind"].get(k, 0) + v
+    if h["sensitive"] and c.get("fts") and c["fts"][0] in (2, 3, 4):
+        st["first_row_uses_row_above_after_dirtying_failure"] += sum(v for k, v in h["by_kind"].items() if k in DIRTYING)
+    for d in h["diffs"]:
+        st["in_rayon_worker"] += d["thread"] == "rayon worker"
+        if d["dc"]["ok"] and d["dc"]["data"] == c["plain"]:
+            continue        # the disturbed answer is the right one: the fresh one is wrong and already reported
+        chk.violation("C09:history." + d["kind"],
+                      {"disturbance": {"kind": d["kind"], "at": d["at"], "decoded_through": d["disturbed_through"], "thread": d["thread"]},
+                       "judged_call": d["judged_call"], "chain": c["chain"], "paramsForm": c["form"], "encoded": c["enc"],
+                       "spec_plain": c["plain"], "lopdf_fresh_thread": r["dc"], "lopdf_after_disturbance": d["dc"]})
+
+
 def judge_row(c, r):
     det = {"filter_type": c["ft"], "bpp": c["bpp"], "prev": c["prev"], "cur": c["cur"], "spec_row": c["want"], "lopdf_row": r["row"]}
     if "panic" in r:
@@ -150,6 +177,13 @@ def codec_phase(chk, tier, w):
     cases = r.tagged("REPLAY")
     if not cases:
         raise vlib.ToolError("generator produced no cases")
+    # streams the decoding thread is disturbed with (history independence): generated by TLC, every damaged one
+    # fails in the reference decoder (invariant DisturbFails)
+    dists = r.tagged("DISTURB")
+    need_kinds = {"ok", "png.cut-row", "png.bad-type", "zlib.cut", "a85.cut", "a85.bad-group", "lzw.bad-code"}
+    if {d["kind"] for d in dists} != need_kinds:
+        raise vlib.ToolError("generator produced disturbance kinds %s" % sorted({d["kind"] for d in dists}))
+    write_ndjson(os.path.join(w, "disturb.ndjson"), dists)
     # (B) action coverage.  TLC's own -coverage makes these fold-heavy modules 15-300x slower, so the
     # per-action counts are taken from the emitted cases (each family is produced by exactly one action).
     fams = {}
@@ -163,11 +197,14 @@ def codec_phase(chk, tier, w):
     require_classes(cases)
     cin, cout = os.path.join(w, "gen.ndjson"), os.path.join(w, "gen.out.ndjson")
     write_ndjson(cin, cases)
-    run_bin("c09", ["replay", "--in", cin, "--out", cout])
+    run_bin("c09", ["replay", "--in", cin, "--disturb", os.path.join(w, "disturb.ndjson"), "--per-case", 8, "--full", 30,
+                    "--out", cout])
     results = read_ndjson(cout)
     if len(results) != len(cases):
         raise vlib.ToolError("replay lost cases")
     passed = {}
+    hist_stats = {"rejudged_after_disturbance": 0, "by_kind": {}, "first_row_uses_row_above_after_dirtying_failure": 0,
+                  "in_rayon_worker": 0}
     for c, r_ in zip(cases, results):
         nontrivial = (c["k"] == "row") or len(c["plain"]) > 0
         chk.case(case_key(c) if nontrivial else None)
@@ -179,11 +216,19 @@ def codec_phase(chk, tier, w):
         ans = "gp" if c["k"] == "chain" and not c["chain"] else "dc"      # zero filters: get_plain_content answers
         if (r_["row"] == c["want"]) if c["k"] == "row" else (r_[ans]["ok"] and r_[ans]["data"] == c["plain"]):
             passed[family(c)] = passed.get(family(c), 0) + 1
+        judge_history(chk, c, r_, hist_stats)
         if c["k"] == "chain" and (c["chain"] or c["ff"] == "empty") and c["impl"]["ok"] and not (r_["dc"]["ok"] and r_["dc"]["data"] == c["impl"]["data"]):
             chk.extra["model_drift"] = chk.extra.get("model_drift", 0) + 1
     for f in fams:
         if passed.get(f, 0) == 0:
             vacuous("no generated case of family %s was decoded correctly by lopdf" % f)
+    for k in need_kinds:
+        if hist_stats["by_kind"].get(k, 0) == 0:
+            vacuous("no case was re-judged after a disturbance of kind %s" % k)
+    if hist_stats["first_row_uses_row_above_after_dirtying_failure"] == 0:
+        vacuous("no predictor case whose first row is Up/Average/Paeth was re-judged after a decode that failed past its first row")
+    chk.extra["history"] = hist_stats
+    chk.extra["disturbances"] = len(dists)
     chk.extra["replayed_cases_by_family"] = fams
     chk.extra["replayed_cases"] = len(cases)
     # (B) negative control for the replay judge: a corrupted expectation must be reported
@@ -280,7 +325,21 @@ def streamops_model(chk, tier):
         seen = {tuple(x) for x in d.tagged("DEVIATION")}
         if seen != {(cls,)}:
             raise vlib.ToolError("deviation switch %s: model shows %s, expected exactly {%s}" % (cfg, sorted(seen), cls))
-    chk.extra["seeded_design_deviations_detected"] = 4
+    # Disturb action: between any two calls the thread may have decoded other streams, incl. ones failing at every
+    # point; with the code as it is (fresh row buffers per call) the contract and HistoryFree hold ...
+    h = tlc("MC_StreamOps.tla", "MC_StreamOps_hist.cfg", workers=4, timeout=900)
+    chk.add_tlc(h)
+    if "disturb" not in set(h.tagged("ACTION")):
+        vacuous("StreamOps history model: Disturb never taken")
+    # ... and the switch "row buffers survive a failed decode" is refuted: the contract breaks, only while the
+    # scratch state is dirty, after the disturbances that fail past a complete row
+    d = tlc("MC_StreamOps.tla", "MC_StreamOps_devRows.cfg", workers=2, timeout=600)
+    chk.add_tlc(d)
+    seen = {k for x in d.tagged("DEVIATION") for k in x if k.startswith("history.")}
+    if not all(any(k.startswith("history.") for k in x) for x in d.tagged("DEVIATION")) or \
+            seen != {"history.png.cut-row", "history.png.bad-type", "history.zlib.cut"}:
+        raise vlib.ToolError("deviation switch devRows: model shows %s" % sorted({tuple(x) for x in d.tagged("DEVIATION")}))
+    chk.extra["seeded_design_deviations_detected"] = 5
 
 
 def add_oracle(recs):
@@ -303,7 +362,7 @@ def add_oracle(recs):
 def trace_phase(chk, tier, w):
     runs = 300 if tier == "quick" else 8000
     raw = os.path.join(w, "rec.ndjson")
-    run_bin("c09", ["record", "--seed", vlib.seed(), "--n", runs, "--out", raw])
+    run_bin("c09", ["record", "--seed", vlib.seed(), "--n", runs, "--disturb", os.path.join(w, "disturb.ndjson"), "--out", raw])
     recs = read_ndjson(raw)
     inflated = add_oracle(recs)
     tr = os.path.join(w, "trace.ndjson")
@@ -327,11 +386,13 @@ def trace_phase(chk, tier, w):
         else:
             strip = lambda s: {k: s[k] for k in ("filters", "fform", "form", "parms", "length", "content", "allows", "dc")}
             chk.violation("C09:" + v["v"], {"op": rec["op"], "stream": rec["sid"], "arg": rec["arg"], "res": rec["res"],
+                                            "disturbed_by": rec["dk"], "fresh_thread_agrees": rec["fresh_same"],
                                             "pre": [strip(s) for s in prev["post"]] if prev and rec["op"] != "reset" else [],
                                             "post": [strip(s) for s in rec["post"]]})
     # (B) the recorded set must contain the interesting transitions
     stats = {"compress_added_filter": 0, "decompress_removed_filter": 0, "roundtrip_compress_decompress": 0, "set_content": 0,
              "set_plain_content": 0, "doc_ops": 0, "python_inflated_states": inflated,
+             "calls_after_disturbance": 0, "predictor_decodes_after_disturbance": 0,
              "decompress_of_empty_filter_array": 0, "null_filter_states": 0, "empty_filter_array_with_empty_decodeparms": 0}
     for i in range(1, len(recs)):
         rec, prev = recs[i], recs[i - 1]
@@ -341,7 +402,10 @@ def trace_phase(chk, tier, w):
             stats[rec["op"]] += 1
         if rec["op"].startswith("doc_"):
             stats["doc_ops"] += 1
+        stats["calls_after_disturbance"] += rec["dk"] != "none"
         for j, (a, b) in enumerate(zip(prev["post"], rec["post"])):
+            stats["predictor_decodes_after_disturbance"] += rec["dk"] in DIRTYING and bool(b["filters"]) and \
+                any(p["present"] and p["pred"] >= 10 for p in b["parms"])
             if rec["op"] in ("decompress", "doc_decompress") and rec["sid"] in (0, j + 1) and not a["filters"] \
                     and a["fform"] == "array" and a["content"]:
                 stats["decompress_of_empty_filter_array"] += 1
@@ -571,6 +635,9 @@ def big_phase(chk, tier, w):
 
 def run(tier):
     del VACUITY[:]
+    for f in os.listdir(vlib.REPLAYS) if os.path.isdir(vlib.REPLAYS) else []:      # replay files of earlier C09 runs are stale
+        if f.startswith("C09-"):
+            os.remove(os.path.join(vlib.REPLAYS, f))
     chk = Check("C09", META["level"], tier)
     chk.rule = ("cases enumerated by TLC (MC_Codecs: one state per input x encoder choice) and calls recorded from seeded random "
                 "operation sequences; a generated case is non-trivial when its plain data is non-empty (or it is a single PNG row), "
@@ -584,6 +651,8 @@ def run(tier):
         "Large contents (4 KiB - 300 KiB, highly compressible) reach TLC as summaries (length, SHA-256, first runs, number of runs) "
         "computed by the harness; equality of byte strings is equality of summaries, and the reference decode of lopdf's "
         "deflate / ASCII85 output is Python's zlib / base64.a85decode",
+        "History independence: the disturbing streams are generated by TLC (damaged at every offset of one wide predictor "
+        "frame); 'fresh' results come from a thread that has never decoded anything, not from a fresh process",
         "TLC -coverage is not used (15-300x slowdown on fold-heavy modules); action coverage is taken from the emitted case "
         "families and ACTION/WITNESS lines",
     ]
